@@ -390,6 +390,9 @@ let trace_preds : (string * (vconfig -> fstep list -> bool)) list = [
   ("c06_rp_exit_ok", c06_rp_exit_ok);
   ("c07_idle_silent_partial", c07_idle_silent_partial);
   ("c07_trigger_ok", c07_trigger_ok);
+  ("c06_emitted_live_ok_g", c06_emitted_live_ok_g);
+  ("c06_no_resend_acked_g", c06_no_resend_acked_g);
+  ("c06_fast_retx_ok_g", c06_fast_retx_ok_g);
   ("c08_fires_ok", c08_fires_ok);
   ("c17_fin_seq_ok", c17_fin_seq_ok);
   ("c17_peer_fin_ok", c17_peer_fin_ok);
